@@ -1,0 +1,32 @@
+//go:build verif
+// +build verif
+
+package core
+
+import (
+	"encoding/json"
+
+	"com.tuntun.rangers/node/src/middleware/db"
+	"com.tuntun.rangers/node/src/middleware/types"
+)
+
+// Verification hook (property C20, build tag verif only, add-only): the sub-chain after() phase
+// (VMExecutor.calcSubReward) looks the block's verifying group up in the group chain. A harness that runs the block
+// loop without the chain services installs an in-memory group store here (only when no group chain exists) and
+// gets back the function that puts a group under its id.
+func VerifC20InstallGroupStore() func(g *types.Group) {
+	VerifC01InitLoggers()
+	var store db.Database
+	if groupChainImpl == nil {
+		md, err := db.NewMemDatabase()
+		if err != nil {
+			panic(err)
+		}
+		groupChainImpl = &groupChain{groups: md}
+	}
+	store = groupChainImpl.groups
+	return func(g *types.Group) {
+		data, _ := json.Marshal(g)
+		store.Put(g.Id, data)
+	}
+}
